@@ -369,7 +369,7 @@ func TestC05(t *testing.T) {
 		if len(ev.harnessErrors) > 0 {
 			return
 		}
-		kC05RT.Run(t, ev, perShard(pick(1200, 200000)))
+		kC05RT.Run(t, ev, perShard(pick(1200, 60000)))
 		kC05Hostile.Run(t, ev, perShard(pick(4000, 2000000)))
 		kC05Str.Run(t, ev, perShard(pick(1000, 500000)))
 		runConcurrent(kC05Hostile, t, ev, perShard(pick(100, 10000)), 8)
